@@ -36,6 +36,9 @@ pub mod stdx { use vstd::prelude::*;
 pub broadcast axiom fn vec_len_bound<T>(v: Vec<T>) ensures #[trigger] v@.len() <= usize::MAX;
 pub broadcast group std_axioms { vec_len_bound }
 }
+pub assume_specification<T: Clone> [<[T]>::clone_from_slice] (dst: &mut [T], src: &[T])
+    requires old(dst)@.len() == src@.len()
+    ensures final(dst)@.len() == src@.len(), forall|i: int| 0 <= i < src@.len() ==> cloned(src@[i], #[trigger] final(dst)@[i]);
 pub assume_specification<T: Clone> [<[T]>::fill] (s: &mut [T], v: T)
     ensures final(s)@.len() == old(s)@.len(), forall|i: int| 0 <= i < old(s)@.len() ==> #[trigger] final(s)@[i] == v;
 pub assume_specification<T> [<[T]>::swap] (s: &mut [T], a: usize, b: usize)
